@@ -93,6 +93,15 @@ def extract(path, tag):
                 yield l.rstrip("\n")[len(pre):-3].replace('\\"', '"').replace("\\\\", "\\")
 
 
+def _die_with_parent():
+    """children (TLC, harness) are killed when this process dies, also when it is killed outright (out of memory)"""
+    try:
+        import ctypes
+        ctypes.CDLL("libc.so.6").prctl(1, 9)      # PR_SET_PDEATHSIG, SIGKILL
+    except Exception:
+        pass
+
+
 STAT_RE = re.compile(r"(\d+) states generated, (\d+) distinct states found")
 
 
@@ -116,7 +125,7 @@ def run_tlc(model, cfg, wd, mode="bfs", workers=4, timeout=900, seed=None, xmx="
     t0 = time.time()
     with open(out, "w") as f:
         try:
-            p = subprocess.run(cmd, stdout=f, stderr=subprocess.STDOUT, timeout=timeout, cwd=wd)
+            p = subprocess.run(cmd, stdout=f, stderr=subprocess.STDOUT, timeout=timeout, cwd=wd, preexec_fn=_die_with_parent)
         except subprocess.TimeoutExpired:
             raise ToolError("TLC timed out on %s" % model)
     txt = open(out, errors="replace").read()
@@ -179,7 +188,7 @@ def tail_errors(txt):
 def run_harness(driver, inp, outp, extra=(), timeout=900):
     try:
         p = subprocess.run([HARNESS, driver, inp, outp] + list(extra), stdout=subprocess.PIPE, stderr=subprocess.PIPE,
-                           text=True, timeout=timeout)
+                           text=True, timeout=timeout, preexec_fn=_die_with_parent)
     except subprocess.TimeoutExpired:
         raise ToolError("harness %s timed out" % driver)
     if p.returncode != 0:
@@ -196,7 +205,7 @@ def run_monitor(trace_spec, trace, wd, timeout=1800, xmx="3g"):
            "-config", os.path.join(SPEC, trace_spec + ".cfg"), os.path.join(SPEC, trace_spec + ".tla")]
     with open(out, "w") as f:
         try:
-            subprocess.run(cmd, stdout=f, stderr=subprocess.STDOUT, timeout=timeout, env=env, cwd=wd)
+            subprocess.run(cmd, stdout=f, stderr=subprocess.STDOUT, timeout=timeout, env=env, cwd=wd, preexec_fn=_die_with_parent)
         except subprocess.TimeoutExpired:
             raise ToolError("monitor %s timed out" % trace_spec)
     shutil.rmtree(os.path.join(wd, "meta"), ignore_errors=True)
@@ -209,6 +218,9 @@ def run_monitor(trace_spec, trace, wd, timeout=1800, xmx="3g"):
     return v
 
 
+CHUNK = 12000      # histories per harness + monitor run
+
+
 def shard(items, n):
     n = max(1, min(n, len(items)))
     return [items[i::n] for i in range(n)]
@@ -217,25 +229,39 @@ def shard(items, n):
 def replay_and_judge(name, histories, driver, trace_spec, shards=8, harness_extra=()):
     """histories: list of dicts (each gets an 'h'). Returns (verdicts list, stats dict, records)."""
     wd = workdir(name)
-    for n, h in enumerate(histories):
-        h["h"] = n + 1
-    parts = shard(histories, shards)
+    if isinstance(histories, Hists):
+        lines = ['{"h":%d,%s' % (n + 1, r.lstrip()[1:]) for n, r in enumerate(histories.raws)]
+    else:
+        for n, h in enumerate(histories):
+            h["h"] = n + 1
+        lines = [json.dumps(h, separators=(",", ":")) for h in histories]
+    # one harness run and one monitor run per chunk: a monitor reads its whole trace into memory, so the chunks are bounded
+    nchunks = max(1, min(shards, len(lines)), (len(lines) + CHUNK - 1) // CHUNK)
+    parts = [lines[i::nchunks] for i in range(nchunks)]
+    del lines
 
     def one(k):
         d = os.path.join(wd, "s%d" % k)
         os.makedirs(d, exist_ok=True)
         inp = os.path.join(d, "in.ndjson")
         with open(inp, "w") as f:
-            for h in parts[k]:
-                f.write(json.dumps(h, separators=(",", ":")) + "\n")
+            for l in parts[k]:
+                f.write(l + "\n")
+        parts[k] = None
         tr = os.path.join(d, "trace.ndjson")
         run_harness(driver, inp, tr, harness_extra)
         v = run_monitor(trace_spec, tr, d)
+        if nchunks > shards:          # many chunks: the traces are large, keep only what a failure needs
+            for f in (tr, inp):
+                try:
+                    os.remove(f)
+                except OSError:
+                    pass
         return v
 
     bad, st, total = [], {}, 0
     t0 = time.time()
-    with cf.ThreadPoolExecutor(max_workers=min(len(parts), NCPU)) as ex:
+    with cf.ThreadPoolExecutor(max_workers=min(len(parts), shards, NCPU)) as ex:
         for v in ex.map(one, range(len(parts))):
             bad.extend(v["bad"] if isinstance(v["bad"], list) else [])
             total += v["total"]
@@ -273,5 +299,41 @@ def write_evidence(pid, tier, seed, level, coverage, assumptions, wall, violatio
         json.dump(ev, f, indent=1)
 
 
-def histories_from(out_path, tag="REPLAY"):
+class Hists:
+    """Generated histories kept as raw JSON text and parsed on access (millions of dicts do not fit in memory).
+    Item i carries h = i + 1, the number replay_and_judge gives it."""
+    def __init__(self, raws):
+        self.raws = raws
+
+    def __len__(self):
+        return len(self.raws)
+
+    def __bool__(self):
+        return bool(self.raws)
+
+    def __getitem__(self, i):
+        if isinstance(i, slice):
+            return [self[j] for j in range(*i.indices(len(self.raws)))]
+        if i < 0:
+            i += len(self.raws)
+        h = json.loads(self.raws[i])
+        h["h"] = i + 1
+        return h
+
+    def __iter__(self):
+        for i in range(len(self.raws)):
+            yield self[i]
+
+
+def by_h(hs):
+    """lookup of a history by the number replay_and_judge gave it"""
+    if isinstance(hs, Hists):
+        return lambda n: hs[n - 1]
+    d = {h["h"]: h for h in hs}
+    return lambda n: d[n]
+
+
+def histories_from(out_path, tag="REPLAY", lazy=False):
+    if lazy:
+        return Hists(list(extract(out_path, tag)))
     return [json.loads(s) for s in extract(out_path, tag)]
